@@ -44,9 +44,10 @@ DEL_VALUE = "v:7f"          # the IH5 deletion marker: outside the common fragme
 
 def gen_ops(rng: random.Random, nops: int) -> List[list]:
     """Operation list in the common fragment, biased towards valid operations on nested
-    paths by a shadow tree; every refusal class is generated on purpose; a few operations
-    outside the fragment (copy into the source's own subtree, the deletion-marker value)
-    are generated too - the comparison of that case stops there."""
+    paths by a shadow tree; every refusal class is generated on purpose; copies into the
+    source's own subtree are part of the fragment (both models graft a snapshot); a few
+    operations outside the fragment (the deletion-marker value) are generated too - the
+    comparison of that case stops there."""
     sh = ih5lib.Shadow()
     ops: List[list] = []
     val = lambda: rng.choice(VALUES)   # noqa: E731
